@@ -751,7 +751,7 @@ Qed.
 Theorem replicator_bounded holds v q cands sends succ :
   handle_task (cluster_env holds v) q cands = (sends, succ) ->
   length succ <= q /\ incl succ sends /\ incl sends cands
-  /\ (forall n, In n succ -> e_rep (cluster_env holds v) n = true /\ n <> v)
+  /\ (forall n, In n succ -> e_rep (cluster_env holds v) n = RStored /\ n <> v)
   /\ (NoDup cands -> NoDup succ).
 Proof. apply handle_task_spec. Qed.
 
